@@ -583,7 +583,9 @@ fn c13(args: Args) {
             c13_check_zone(&z, "parsed", Some(&text), sh);
             sh.count("class:parsed", 1);
             if sh.want_sample() && k == 9 {
-                sh.sample(json!({"class": "parsed", "serialised": z.serialise()}));
+                if let Ok(t) = catch(|| z.serialise()) {
+                    sh.sample(json!({"class": "parsed", "serialised": t}));
+                }
             }
         }
         for _ in 0..(n_api / THREADS as u64) {
@@ -729,6 +731,10 @@ fn c14_case(rng: &mut Rng, sh: &mut Shard) {
             }
         }
     }
+    // both conversions back: the one that discards what a hosts file cannot hold must discard nothing here
+    if Hosts::from_zone_lossy(&zone) != hosts {
+        sh.violation("C14:zone-to-hosts-differs:lossy-conversion", "Hosts::from_zone_lossy(Zone::from(hosts)) != hosts", replay());
+    }
     match Hosts::try_from(zone) {
         Ok(back) if back == hosts => {}
         Ok(_) => sh.violation("C14:zone-to-hosts-differs", "Hosts::try_from(Zone::from(hosts)) != hosts", replay()),
@@ -834,6 +840,12 @@ fn c14(args: Args) {
                         sh.violation("C14:ztoh-rejects-htoz-output", truncate(&eb, 300), replay.clone());
                     } else if sorted_lines(&back) != sorted_lines(&h1) {
                         sh.violation("C14:ztoh-htoz-differs-from-htoh", "ztoh --strict (htoz x) != htoh x", replay.clone());
+                    }
+                }
+                // without --strict the conversion may drop what a hosts file cannot hold: nothing, for a zone made from hosts data
+                if let Ok((okl, back, _)) = run_bin("ztoh", &[], &z) {
+                    if !okl || sorted_lines(&back) != sorted_lines(&h1) {
+                        sh.violation("C14:ztoh-htoz-differs-from-htoh:lossy-conversion", "ztoh (htoz x) != htoh x", replay.clone());
                     }
                 }
             }
